@@ -219,6 +219,38 @@ def gen_many_primary_case(rng):
     return dict(basis=bs, terms=terms, offset=0.0, qn_size=1, via="terms", mode="unit", cplx=True)
 
 
+def check_all_pauli_strings(run, rng, quick):
+    """every one of the 4^8 = 65536 Pauli strings on eight spins with its own coefficient: more terms than a 16-bit label
+    can count (the construction tables are uint16); dense reference by contracting the coefficient tensor site by site."""
+    n = 8
+    coef = np.round(rng.normal(size=(4,) * n), 6)
+    coef[coef == 0] = 1.0
+    names = ["I", "X", "Y", "Z"]
+    pm = np.array([[[1, 0], [0, 1]], [[0, 1], [1, 0]], [[0, -1j], [1j, 0]], [[1, 0], [0, -1]]], dtype=complex)
+    ref = coef.astype(complex)
+    for i in range(n):          # contract the label axis of site i with the Pauli matrices: axes (a_i) -> (r_i, c_i) appended
+        ref = np.tensordot(ref, pm, axes=([0], [0]))
+    ref = ref.transpose([2 * i for i in range(n)] + [2 * i + 1 for i in range(n)]).reshape(2 ** n, 2 ** n)
+    basis = [L.make_basis(dict(kind="spin", dof=f"s{i}")) for i in range(n)]
+    model = Model(basis, [])
+    ops = []
+    for idx in np.ndindex(*coef.shape):
+        ops.append(Op(" ".join(names[k] for k in idx), [f"s{i}" for i in range(n)], float(coef[idx])))
+    scale = float(np.abs(coef).sum())
+    for algo in (("Hopcroft-Karp",) if quick else ("Hopcroft-Karp", "Hungarian")):
+        rep = dict(op="construct", algo=algo, case="all 65536 Pauli strings on 8 half-spins, coefficient tensor drawn from the run's RNG stream",
+                   nterms=len(ops))
+        try:
+            d = np.asarray(Mpo(model, ops, algo=algo).todense())
+        except Exception as e:  # noqa
+            run.violation(f"construct:{algo}:65536-terms:raises:{type(e).__name__}", dict(rep, error=repr(e)[:300]))
+            continue
+        err = float(np.max(np.abs(d - ref)))
+        run.count("case:all-pauli-strings(65536 terms)")
+        if not err <= 512 * EPS * 64 * scale:
+            run.violation(f"construct:{algo}:65536-terms:dense-mismatch", dict(rep, max_abs_error=err, scale=scale))
+
+
 def gen_d12_case(rng):
     """all factors real, at least one term whose local matrix has a complex dtype"""
     nsite = int(rng.integers(1, 4))
@@ -510,6 +542,10 @@ def search(run, rng, quick):
             a = next(iter(built))
             run.sample(dict(nsite=len(bs), kinds=[s["kind"] for s in bs], nterms=len(terms), offset=case["offset"],
                             algo=a, bond_dims=[int(x) for x in built[a].bond_dims]))
+    try:
+        check_all_pauli_strings(run, rng, quick)
+    except MemoryError:
+        run.count("all-pauli-strings:skipped:MemoryError")
     run.count("max_err_over_tol_permille", int(1000 * stats["worst"]) - run.counts.get("max_err_over_tol_permille", 0))
     run.count("swaps-succeeded", stats["swaps_ok"])
     run.cov["evaluations"] = run.cov.get("evaluations", 0) + stats["n"]
